@@ -92,3 +92,23 @@ if __name__ == "__main__":
             meta = json.load(open(os.path.join(sd, "meta.json")))
             print("==", sid, meta.get("property"))
             run_checks(sd, meta.get("checks", [meta.get("property")]))
+
+
+def import_seed(src, sid, prop, checks, detected):
+    """copy a confirmed seeded change into /verif/seeded/<sid>/ with meta.json"""
+    dst = os.path.join(V, "seeded", sid)
+    os.makedirs(dst, exist_ok=True)
+    for f in ("patch.diff", "demo.py"):
+        shutil.copy(os.path.join(src, f), dst)
+    notes = open(os.path.join(src, "notes.txt")).read() if os.path.exists(os.path.join(src, "notes.txt")) else ""
+    meta = {"id": sid, "property": prop, "checks": checks, "origin": "fresh sub-agent given only the property text and a scratch worktree",
+            "needs_to_manifest": notes.strip(), "confirmed": "tools/seeded.py confirm: patch applies to HEAD, demo exits 0 without / non-zero with the change, "
+            "repository baseline (1096 stable tests) still passes with the change",
+            "ran": [f"tools/seeded.py run seeded/{sid} " + " ".join(checks)], "detected_by": detected}
+    json.dump(meta, open(os.path.join(dst, "meta.json"), "w"), indent=1)
+    print("imported", dst)
+
+
+if __name__ == "__main__" and sys.argv[1] == "import":
+    # tools/seeded.py import <src> <sid> <prop> <check,check> <detected json>
+    import_seed(sys.argv[2], sys.argv[3], sys.argv[4], sys.argv[5].split(","), json.loads(sys.argv[6]))
